@@ -126,8 +126,8 @@ func main() {
 	hangs := 0
 	hx.Cases(func(c map[string]any) map[string]any {
 		obs := []any{}
-		if hangs >= 3 {
-			// three calls never returned already: the remaining histories would only wait for the watchdog again
+		if hangs >= 1 {
+			// a call never returned: it may hold the fork lock for ever (Open does), so nothing more can be started in this process
 			return map[string]any{"obs": obs, "hang": true, "skipped_after_hangs": true}
 		}
 		for _, raw := range c["ops"].([]any) {
